@@ -1,4 +1,5 @@
 import Typegen.ProjectSpec
+import Typegen.TablesExpected
 /-! # C12 — one correctly named, correctly subscribed listener per emitted event -/
 namespace TG.C12
 open Pj An Gn N
@@ -96,5 +97,10 @@ theorem C12_no_events (cfg : Config) (a : Analysis) (h : a.events = []) :
 /-- K12b / K12c witnesses: `:` and `/` survive into the function name; `a-b` and `a_b` collide -/
 theorem K12b_witness : eventFunctionName cl!"user:login/now" = cl!"onUser:login/now" := by decide +kernel
 theorem K12c_witness : eventFunctionName cl!"ev-a" = eventFunctionName cl!"ev_a" := by decide +kernel
+
+
+/-- the method names the event walker looks for, re-read from the source on this run -/
+theorem C12_source_table_emit_methods :
+    Exp.litsOf "handle_method_call" = Exp.handleMethodCall ∧ Exp.litsOf "extract_emit_event" = Exp.extractEmitEvent := by decide
 
 end TG.C12
